@@ -145,7 +145,7 @@ func c11Check(c c11Case) fw.Outcome {
 }
 
 var finitePool = []float64{0, math.Copysign(0, -1), 1, -1, 180, -180, 90, -90, 180.0000001, -180.0000001, 90.0000001, -90.0000001, 179.9999999, 89.9999999,
-	math.MaxFloat64 / 4, -math.MaxFloat64 / 4, math.SmallestNonzeroFloat64, -math.SmallestNonzeroFloat64, 1e-300, 1e300, 45, -45, 0.5, 100, -100}
+	math.MaxFloat64 / 4, -math.MaxFloat64 / 4, math.MaxFloat64, -math.MaxFloat64, 1e308, math.SmallestNonzeroFloat64, -math.SmallestNonzeroFloat64, 1e-300, 1e300, 45, -45, 0.5, 100, -100}
 
 func genFinite(t *rapid.T, label string) F {
 	switch rapid.IntRange(0, 4).Draw(t, label+"_m") {
